@@ -163,6 +163,39 @@ def worker(blocks):
     return out
 
 
+def after_other_uses(blocks):
+    """ONE fresh process: every text spelling of the run is first handed to parameters of OTHER kinds - the date parameters
+    of DAYS / EDATE / ISOWEEKNUM / YEARFRAC / DATEDIF, a text parameter, a logical test - and only then used as the number
+    it spells: what a value is taken for in one place must not stick to the text (a cache keyed by the text alone)"""
+    L = xl.lib()
+    F = L.xl.FUNCTIONS
+    cases = []
+    for b in blocks:
+        st = pool.parse_block(b)
+        c = st['case']
+        if c['kind'] == 'spell' and c['tag'] in ('text', 'wtext', 'scitext', 'ltext', 'ptext', 'plustext'):
+            cases.append(b)
+    texts = set()
+    for b in cases:
+        c = pool.parse_block(b)['case']
+        texts.add(xl.text_of(c['args'][c['pos'] - 1]))
+    for t in sorted(texts):
+        for mk in (lambda: F['DAYS'](t, 1), lambda: F['EDATE'](t, 0), lambda: F['ISOWEEKNUM'](t), lambda: F['YEARFRAC'](t, 1),
+                   lambda: F['DATEDIF'](t, 2, 'D'), lambda: F['LEN'](t), lambda: F['IF'](L.ft.Expr(lambda: t), L.ft.Expr(lambda: 1), L.ft.Expr(lambda: 2)),
+                   lambda: F['DAYS'](L.ft.Text(t), 1), lambda: F['OP_EQ'](L.ft.Text(t), True)):
+            try:
+                mk()
+            except BaseException as e:      # noqa
+                if isinstance(e, (KeyboardInterrupt, SystemExit)):
+                    raise
+    out = worker(cases)
+    for d in out['dis']:
+        d['path'] = 'after-date-and-text-use:' + d['path']
+        d['features'] = dict(d['features'], after_other_uses=True)
+    out['texts'] = len(texts)
+    return out
+
+
 # ----------------------------------------------------------------------------
 # function names: case-insensitive, _xlfn. prefix ignored (relational: same result as the upper-case spelling)
 # ----------------------------------------------------------------------------
@@ -295,6 +328,12 @@ def run(run):
         for d in res['dis']:
             run.disagree('call', d['case'], d['exp'], d['obs'], d['features'], clause=d['path'])
     run.notes['cases_by_kind'] = kinds
+    # the text spellings again, after the same texts were handed to date / text / logical parameters in the same process
+    res = pool.pmap_fresh(after_other_uses, [blocks])[0]
+    run.evaluations += res['calls']
+    run.notes['texts_used_elsewhere_first'] = res['texts']
+    for d in res['dis']:
+        run.disagree('call', d['case'], d['exp'], d['obs'], d['features'], clause=d['path'])
     # function-name matching
     ncases = name_cases()
     for part in pool.pmap(name_worker, ncases):
